@@ -149,7 +149,7 @@ func c05DigestFlag(c *Ctx) {
 					okG, _ := guarded(fn, term, func(iff *ssa.If) (bool, bool) {
 						eqOnTrue, ok := equalEdge(iff, originHas("call:(desync.HashAlgorithm).Algorithm#0"), func(v ssa.Value) bool {
 							kk, ok := v.(*ssa.Const)
-							return ok && kk.Value != nil && kk.Int64() == 15 // crypto.SHA512_256
+							return ok && kk.Value != nil && constInt64(kk) == 15 // crypto.SHA512_256
 						})
 						if !ok {
 							return false, false
@@ -255,7 +255,7 @@ func modePairs(fn *ssa.Function) map[string]bool {
 			}
 		case token.NEQ:
 			// (mode & K) != 0
-			if z, ok := cm.y.(*ssa.Const); ok && z.Value != nil && z.Int64() == 0 && (onTrue == truth) {
+			if z, ok := cm.y.(*ssa.Const); ok && z.Value != nil && constInt64(z) == 0 && (onTrue == truth) {
 				if and, ok := cm.x.(*ssa.BinOp); ok && and.Op == token.AND {
 					if kk, ok := and.Y.(*ssa.Const); ok && kk.Value != nil {
 						in = kk.Value.ExactString()
@@ -408,7 +408,7 @@ func (c *Ctx) tableModePairs(fn *ssa.Function) map[string]bool {
 				}
 			}
 		case token.NEQ:
-			if z, ok := cm.y.(*ssa.Const); ok && z.Value != nil && z.Int64() == 0 {
+			if z, ok := cm.y.(*ssa.Const); ok && z.Value != nil && constInt64(z) == 0 {
 				if and, ok := cm.x.(*ssa.BinOp); ok && and.Op == token.AND {
 					for _, side := range []ssa.Value{and.X, and.Y} {
 						if g0, e0, f0, ok := tableField(side); ok {
@@ -877,7 +877,7 @@ func c05RestoreTimes(c *Ctx) {
 				a := u.Common().Args
 				k0, ok0 := a[0].(*ssa.Const)
 				k1, ok1 := a[1].(*ssa.Const)
-				if ok0 && ok1 && k0.Int64() == 0 && k1.Int64() == 0 && instrDominates(u.(ssa.Instruction), call.(ssa.Instruction)) {
+				if ok0 && ok1 && constInt64(k0) == 0 && constInt64(k1) == 0 && instrDominates(u.(ssa.Instruction), call.(ssa.Instruction)) {
 					sentinel = true
 					pos = u.Pos()
 				}
